@@ -45,6 +45,8 @@ def configs(tier):
             continue
         for report in ("none", "GP+AFP"):
             out.append(dict(scenario=name, report=report))
+    # the threshold the program applies is the one on the command line (0 is a threshold, not "option absent")
+    out.append(dict(scenario="dip2", report="none", group="cli-attrs", prog="assemble"))
     return out
 
 
@@ -66,6 +68,10 @@ def run_config(c, col):
     E.use_summaries(True)
     E.reset_modules()
     E.cfg.concrete_ints = True
+    if c.get("group") == "cli-attrs":
+        from checks import wiring
+
+        return wiring.run_cli_attrs(c, col)
     import warnings
 
     asm = E.load("mchap.application.assemble")
@@ -294,6 +300,10 @@ def _real_run(c, m):
 
 def replay(v):
     c = v["config"]
+    if c.get("group") == "cli-attrs":
+        from checks import wiring
+
+        return wiring.replay_real(v, wiring.run_cli_attrs)
     m = v.get("model") or {}
     k = v["kind"]
     try:
